@@ -33,6 +33,21 @@ TRUSTED_EXTRA = ["the recorder that wraps CphotAng.run / the EAS.CphotAng attrib
 COS_DEFAULT = float(np.cos(np.radians(1.5)))
 
 
+def regen():
+    import srctie
+    return srctie.regen("C08")
+
+
+def src_eas(ctx, beta, alt, E, lat, long, area, qe, thr, kd, kt, pe, cos):
+    """the source of EAS.__call__ as translated (Gen/Src/C08.lean) at Float next to the real call; numPEs is arithmetic
+    only (bit-identical), the cosine goes through log / sqrt / cos (an ulp or two)"""
+    import srctie
+    n = len(alt)
+    ix = np.arange(n) if n <= 4000 else np.unique(np.concatenate([np.arange(400), np.linspace(0, n - 1, 3600).astype(int)]))
+    cols = [np.asarray(c, dtype=np.float64)[ix] for c in (beta, alt, E, lat, long, np.full(n, area), np.full(n, qe), np.full(n, thr), kd, kt)]
+    srctie.compare(ctx, "C08", "easCall", cols, [np.asarray(pe)[ix], np.asarray(cos)[ix]], rtol=1e-12, atol=1e-12)
+
+
 @contextlib.contextmanager
 def quiet():
     """the batch call prints a dask progress bar"""
@@ -266,6 +281,7 @@ def stub_stream(ctx, mods):
         kt = np.where(np.isin(np.arange(n), stub.asked), theta, np.nan)
         check_events(ctx, "stub", alt, kd, kt, area, qe, thr, pe, cos, stub.asked, ci, sample_every=n if ci else 1499)
         check_batch(ctx, "stub", alt, kd, kt, area, qe, thr, pe, cos, stub.asked)
+        src_eas(ctx, beta, alt, E, idx, np.zeros(n), area, qe, thr, kd, kt, pe, cos)
         ctx.count("stub.boundary_cases", nb)
         # monotone in the signal (real code, same angle, increasing density)
         m = 400
@@ -298,6 +314,7 @@ def stub_stream(ctx, mods):
         kd = np.where(np.isin(np.arange(n2), stub.asked), dens, np.nan)
         kt = np.where(np.isin(np.arange(n2), stub.asked), theta, np.nan)
         check_events(ctx, "malformed", alt, kd, kt, area, qe, thr, pe, cos, stub.asked, ("mal", thr), malformed=True)
+        src_eas(ctx, np.zeros(n2), alt, np.ones(n2), np.arange(n2, dtype=np.float64), np.zeros(n2), area, qe, thr, kd, kt, pe, cos)
         # the 'never smaller than the intrinsic angle' clause holds even for negative angles / thresholds (final where)
         ctx.count("malformed.events", n2)
 
@@ -361,6 +378,7 @@ def real_stream(ctx, mods):
         runs[name] = (p, pe, cos, kd, kt)
         check_events(ctx, "real", alt, kd, kt, p["area"], p["qe"], p["thr"], pe, cos, asked, name, sample_every=17 if name == "base" else 0)
         check_batch(ctx, "real", alt, kd, kt, p["area"], p["qe"], p["thr"], pe, cos, asked)
+        src_eas(ctx, beta, alt, E, np.arange(n, dtype=np.float64), np.zeros(n), p["area"], p["qe"], p["thr"], kd, kt, pe, cos)
         ctx.count("real.kernel_calls", len(calls))
         ctx.traces += 1
     # ---- a batch whose events are ALL out of range: the real kernel must not simulate anything
@@ -477,6 +495,10 @@ def real_stream(ctx, mods):
             lines.append(f"altscale {f2h(r0[0])} {f2h(r0[1])} {f2h(bc)} {f2h(a64)} {f2h(det)}")
             meta.append((i, det, r0, r1, bc))
             ctx.count("real.kernel_calls", 1)
+    # the head and tail of CphotAng.run as translated from the source, next to the kernel run in binary64 (guarded hook)
+    import cphot_srctie
+    cphot_srctie.run_head_tail(ctx, "C08", [(float(beta[i]), float(alt[i]), float(E[i])) for i in np.nonzero(inr)[0][: (24 if ctx.thorough else 8)]],
+                               dets, head=False)
     for (i, det, r0, r1, bc), o in zip(meta, run_driver(lines)):
         dm, am = h2f(o[0]), h2f(o[1])
         d_a = chord(bc, float(alt[i]), det, Re)
@@ -507,6 +529,14 @@ def distance_stream(ctx, mods):
         warnings.simplefilter("ignore")
         d = dg.distance_to_detector(beta, z, zd, Re)
     out = run_driver_sharded([f"dist {f2h(beta[i])} {f2h(z[i])} {f2h(zd[i])} {f2h(Re[i])}" for i in range(n)])
+    # the three geometry functions as translated from the source: same doubles in, cos/arcsin/arccos/sin to an ulp; the
+    # distance takes the sine of a difference of angles of size ~1 (absolute error ~1e-16 R, as for the model above)
+    import srctie
+    from nuspacesim.simulation.eas_optical.shower_properties import propagation_angle
+    sx = slice(0, 4000)
+    srctie.compare(ctx, "C08", "distanceToDetector", [beta[sx], z[sx], zd[sx], Re[sx]], [d[sx]], rtol=1e-9, atol=1e-12 * (6378.2 + 40000.0))
+    srctie.compare(ctx, "C08", "viewingAngle", [beta[sx], zd[sx], Re[sx]], [dg.viewing_angle(beta, zd, Re)[sx]], rtol=1e-13, atol=1e-15)
+    srctie.compare(ctx, "C08", "propagationAngle", [beta[sx], z[sx], Re[sx]], [propagation_angle(beta, z, Re)[sx]], rtol=1e-12, atol=1e-13)
     for i, o in enumerate(out):
         dm = h2f(o[0])
         ref = chord(float(beta[i]), float(z[i]), float(zd[i]), float(Re[i]))
